@@ -206,7 +206,6 @@ class World:
                 return
             inv = self.claimed.pop(0)
             tasks_c20.SCRIPT["mode"] = op[1]
-            before = int(env.IDS.n)
             try:
                 inv.run(self.r1)
             except Exception:  # noqa: BLE001 - a failing body is the point of ("run", "fail")
@@ -215,7 +214,7 @@ class World:
                 context.set_runner_context(APP_ID, self.client)
                 tasks_c20.SCRIPT["mode"] = "ok"
             self.done.append(str(inv.invocation_id))
-            self._adopt_children(before)
+            self._adopt_children()
         elif kind == "block":
             # a runner thread started the oldest claimed invocation, its body submitted a child and
             # now waits for the child's result (the thread stays blocked: RUNNING + wait-graph edge)
@@ -225,13 +224,12 @@ class World:
             app.orchestrator.set_invocation_status(inv.invocation_id, InvocationStatus.RUNNING, self.r1)
             context.set_runner_context(APP_ID, self.r1)
             prev = context.swap_dist_invocation_context(APP_ID, inv)
-            before = int(env.IDS.n)
             try:
                 self.t["child"](7)
             finally:
                 context.swap_dist_invocation_context(APP_ID, prev)
                 context.set_runner_context(APP_ID, self.client)
-            self._adopt_children(before)
+            self._adopt_children()
             app.orchestrator.waiting_for_results(inv.invocation_id, [self.ids[-1]])
             self.blocked.append(str(inv.invocation_id))
         elif kind == "heartbeat":
@@ -255,7 +253,7 @@ class World:
         else:
             raise AssertionError(op)
 
-    def _adopt_children(self, ids_before: int) -> None:
+    def _adopt_children(self) -> None:
         """Invocation ids created inside a task body (children): found by a scan of the queue."""
         for q in self.queue():
             if q not in self.ids:
@@ -299,8 +297,6 @@ class World:
                     continue
                 for attr, val in vars(obj).items():
                     if attr in EXCLUDED or _is_app_or_conf(val) or attr == "_blocking_control":
-                        continue
-                    if cname == "broker":
                         continue
                     out[f"{cname}.{attr}"] = _canon(val)
             from pynenc.state_backend.mem_state_backend import MemStateBackend
@@ -365,9 +361,12 @@ def build(backend: str, history: list, queue_page: int) -> World:
     return w
 
 
-# a system that has been in use: one success, one failure, one queued, looked at a day later
+# systems that have been in use and are looked at a day later (finished invocations are past the
+# orchestrator's auto-purge age, heartbeats are stale): one success + one failure + one queued; one success
 AGED = [("submit",), ("submit",), ("submit",), ("claim",), ("run", "ok"), ("claim",), ("run", "fail"), ("heartbeat",),
         ("tick",)]
+AGED_ONE = [("submit",), ("claim",), ("run", "ok"), ("tick",)]
+PREFIXES = {"aged": AGED, "aged-one-final": AGED_ONE}
 
 
 def alphabet(history: list, thorough: bool) -> list[tuple]:
@@ -390,8 +389,10 @@ def alphabet(history: list, thorough: bool) -> list[tuple]:
 # ---------------------------------------------------------------------------
 def _prepare() -> None:
     """Same seams as every other check (virtual clock, inline background threads, SQLite proxy), but
-    without the proxy's connection pool: the monitor's handlers run in other threads (event loop,
-    asyncio.to_thread) and a sqlite3 connection must not change threads."""
+    without the proxy's connection pool: pooled connections have busy_timeout 0 because blocking is
+    emulated by the controlled scheduler; here the monitor's handlers run in real threads (event loop,
+    asyncio.to_thread) outside any scheduler, so pynenc's own connection handling is kept (a fresh
+    connection per operation, 30 s busy timeout)."""
     from vf import e1, sqlproxy
 
     e1.prepare()
@@ -469,6 +470,11 @@ def get_routes() -> list[dict]:
     sh = shadowed(out)
     for r in out:
         r["shadowed"] = sh.get(r["path"])
+    # self-check of the walker against the application's own OpenAPI description
+    have = {re.sub(r":[a-z]+}", "}", r["path"]) for r in out}
+    want = {p for p, ops in pa.app.openapi().get("paths", {}).items() if "get" in ops}
+    if want - have or "/broker/queue" not in have:
+        raise RuntimeError(f"route walker missed GET routes: {sorted(want - have)}")
     return out
 
 
@@ -798,6 +804,10 @@ def _enumerate_states(backend: str, depth: int, queue_page: int, thorough: bool,
     return kept
 
 
+def _weight(history: list) -> int:
+    return sum(21 if o[0] == "submit_many" else 1 for o in history)
+
+
 def run(ctx: Ctx) -> None:
     routes = get_routes()
     queue_page = queue_page_default(routes)
@@ -808,16 +818,19 @@ def run(ctx: Ctx) -> None:
     for backend in env.BACKENDS:
         seen: set = set()
         hs = _enumerate_states(backend, depth, queue_page, ctx.thorough, ctx, [], seen)
-        hs += _enumerate_states(backend, depth_aged, queue_page, ctx.thorough, ctx, AGED, seen)
+        for prefix in PREFIXES.values():
+            hs += _enumerate_states(backend, depth_aged, queue_page, ctx.thorough, ctx, prefix, seen)
         per_backend[backend] = len(hs)
         items += [(backend, h, queue_page, i % 97 == 5) for i, h in enumerate(hs)]
     if getattr(ctx, "only", None):
         items = [it for it in items if ctx.only in json.dumps([it[0], it[1]])]
     # heaviest first (long queues), stable
-    items.sort(key=lambda it: -sum(21 if o[0] == "submit_many" else 1 for o in it[1]))
+    items.sort(key=lambda it: -_weight(it[1]))
     rot = ctx.seed % max(1, len(items))
     items = items[rot:] + items[:rot]
-    for part in par.pmap(_explore_unit, items):
+    parts = par.pmap(_explore_unit, items)
+    # merged shortest history first: the example recorded for a signature is a minimal one
+    for _i, part in sorted(enumerate(parts), key=lambda ip: (_weight(items[ip[0]][1]), ip[0])):
         ctx.merge(part)
     # ---- evidence -------------------------------------------------------
     table: dict[str, dict] = {}
@@ -835,14 +848,14 @@ def run(ctx: Ctx) -> None:
         set(r["path"] for r in routes) - ctx.sets.get("routes_reaching_handler", set()))
     ctx.extra["states_per_backend"] = per_backend
     ctx.extra["history_depth"] = depth
-    ctx.extra["aged_prefix"] = [list(o) for o in AGED]
+    ctx.extra["aged_prefixes"] = {k: [list(o) for o in v] for k, v in PREFIXES.items()}
     ctx.extra["history_depth_after_aged_prefix"] = depth_aged
     ctx.extra["queue_view_default_limit"] = queue_page
     ctx.extra["excluded_attributes"] = EXCLUDED
     ctx.rule = (
         f"states: every history of length <= {depth} over {{submit, submit x(limit+1), claim, run ok/fail/spawn-child, "
-        "block-on-child, heartbeat, service record, event, clock +25h, purge of ONE of state_backend/orchestrator/broker}} "
-        f"from the empty system, and every history of length <= {depth_aged} from the 'aged' prefix (extra.aged_prefix), "
+        "block-on-child, heartbeat, service record, event, clock +25h, purge of ONE of state_backend/orchestrator/broker} "
+        f"from the empty system, and every history of length <= {depth_aged} after each 'aged' prefix (extra.aged_prefixes), "
         "on mem and sqlite, kept when the concrete read-out differs from every earlier state; for each state every GET "
         "route of the monitor's route table x the parameter menu (path: existing ids of the right kind, a missing "
         "well-formed id, malformed ids; query: each parameter over its menu one at a time, plus listed combinations); "
